@@ -35,7 +35,7 @@ func (c01) Meta() fw.Meta {
 
 func (c01) Cases(tier string) int {
 	if tier == "thorough" {
-		return 60000
+		return 400000
 	}
 	return 2000
 }
